@@ -48,6 +48,8 @@ pub enum PayloadEdit {
     ChangeDigest(usize),
     /// same JSON value, different text
     Whitespace,
+    /// replace the n-th node (pre-order, root = 0 excluded) of the payload by a value
+    FlipNode(usize, Value),
 }
 
 #[derive(Clone, Debug, Serialize, Deserialize, PartialEq)]
@@ -95,6 +97,9 @@ pub enum Fault {
     ReplayKb { from: usize },
     /// KB-JWT rebuilt over the *current* message by `key` (holder, non-holder, issuer …).
     ResignKb { key: String, alg: String, aud: String, nonce: String },
+    /// Byzantine issuer: payload edited and re-signed with a roster key (validly signed,
+    /// structurally malformed tokens).
+    ByzPayload { edit: PayloadEdit, key: String, alg: String },
     /// Genuine holder key, one field absent (`None`) or different.
     KbFieldEdit { key: String, alg: String, aud: String, nonce: String, field: KbField, value: Option<Value> },
 }
@@ -121,6 +126,7 @@ impl Fault {
             Fault::ReplayKb { .. } => "replay_kb",
             Fault::ResignKb { .. } => "resign_kb",
             Fault::KbFieldEdit { .. } => "kb_field",
+            Fault::ByzPayload { .. } => "byzantine_issuer",
         }
     }
     pub fn target(&self) -> String {
@@ -213,9 +219,49 @@ pub fn char_edit(s: &str, pos: usize, op: &CharOp) -> Option<String> {
     Some(cs.into_iter().collect())
 }
 
+pub fn flip_node(v: &mut Value, n: &mut isize, with: &Value) -> bool {
+    match v {
+        Value::Object(o) => {
+            for (_, c) in o.iter_mut() {
+                if *n == 0 {
+                    *c = with.clone();
+                    return true;
+                }
+                *n -= 1;
+                if flip_node(c, n, with) {
+                    return true;
+                }
+            }
+            false
+        }
+        Value::Array(a) => {
+            for c in a.iter_mut() {
+                if *n == 0 {
+                    *c = with.clone();
+                    return true;
+                }
+                *n -= 1;
+                if flip_node(c, n, with) {
+                    return true;
+                }
+            }
+            false
+        }
+        _ => false,
+    }
+}
+
 fn reencode_payload(m: &mut Message, e: &PayloadEdit) -> bool {
     let Some(Value::Object(mut o)) = model::decode_jwt_part(&m.p) else { return false };
     let newp = match e {
+        PayloadEdit::FlipNode(n, with) => {
+            let mut v = Value::Object(o);
+            let mut n = *n as isize;
+            if !flip_node(&mut v, &mut n, with) {
+                return false;
+            }
+            model::encode_json(&v)
+        }
         PayloadEdit::SetClaim(k, v) => {
             if o.get(k) == Some(v) {
                 return false;
@@ -519,6 +565,22 @@ pub fn apply(f: &Fault, m: &mut Message, tokens: &[Message], w: &mut World, now:
             let claims = kb_claims(aud, nonce, now, &sd_hash_of(m));
             if let Some(kb) = w.byz_kb(key, alg, Some("kb+jwt"), &claims) {
                 m.kb = Some(kb);
+            }
+        }
+        Fault::ByzPayload { edit, key, alg } => {
+            let before_p = m.p.clone();
+            if reencode_payload(m, edit) {
+                if let Some(claims) = model::decode_jwt_part(&m.p) {
+                    let typ = model::decode_jwt_part(&m.h).and_then(|h| h.get("typ").and_then(Value::as_str).map(str::to_string));
+                    if let Some(t) = w.byz_sign(key, alg, typ.as_deref(), &claims) {
+                        let v: Vec<&str> = t.split('.').collect();
+                        m.h = v[0].into();
+                        m.p = v[1].into();
+                        m.s = v[2].into();
+                    } else {
+                        m.p = before_p;
+                    }
+                }
             }
         }
         Fault::KbFieldEdit { key, alg, aud, nonce, field, value } => {
